@@ -315,15 +315,26 @@ def r20_param_patterns(u, key, text):
     a plain parameter `r20_x: Name` and `let Name(x) = r20_x;` as first statement of the body."""
     head_end = text.index('{')
     head = text[:head_end]
+    _h, _r, _w, _b = rsparse.fn_signature_split(text)
+    head_end = len(text) - len(_b)
+    head = text[:head_end]
     found = []
 
     def repl(m):
         found.append((m.group(1), m.group(2)))
         return 'r20_%s: %s' % (m.group(2), m.group(1))
     head2 = re.sub(r'\b([A-Z]\w*)\((\w+)\)\s*:\s*\1\b', repl, head)
-    if not found:
+    found2 = []
+
+    def repl2(m):
+        found2.append((m.group(1), m.group(2).strip()))
+        return 'r20_s%d: %s' % (len(found2), m.group(1))
+    head2 = re.sub(r'\b([A-Z]\w*)\s*\{([^{}]*)\}\s*:\s*\1\b', repl2, head2)
+    if not found and not found2:
         return text
     lets = ''.join('\n\t\tlet %s(%s) = r20_%s;' % (ty, x, x) for ty, x in found)
+    lets += ''.join('\n\t\tlet %s { %s } = r20_s%d;' % (ty, flds, k + 1) for k, (ty, flds) in enumerate(found2))
+    found = found + found2
     u.rules['R20'] += len(found)
     return head2 + '{' + lets + text[head_end + 1:]
 
@@ -336,3 +347,30 @@ def r21_cmp_minmax(u, key, text):
         u.rules['R21'] += n
         text = re.sub(r'\bstd::cmp::(max|min)\(', r'usize_\1(', text)
     return text
+
+
+def r22_filter_count(u, key, text):
+    """R22: `S.iter().filter(|&&x| P).count()` -> `slice_count(S, |x: T| -> (b: bool) ensures b == P' { P })` is too type-directed;
+    the one site in /repo has P = `starts_declaration(token)`, a plain fn call on the element, so the rewrite is
+    `S.iter().filter(|&&x| F(x)).count()` -> `slice_count(S, F)` with the VERIFIED helper slice_count (prelude/slice_count.rs)."""
+    pat = re.compile(r'(\w+(?:\s*\.\s*\w+\(\))*?)\s*\.iter\(\)\s*\.filter\(\|&&(\w+)\|\s*(\w+)\(\2\)\)\s*\.count\(\)', re.S)
+    m = pat.search(text)
+    if not m:
+        return text
+    u.rules['R22'] += 1
+    recv = re.sub(r'\s+', '', m.group(1))
+    return text[:m.start()] + 'slice_count(%s, %s)' % (recv, m.group(3)) + text[m.end():]
+
+
+def r23_push_within_capacity(recv):
+    """R23: `RECV.push(x)` directly after `assert!(RECV.len() < RECV.capacity())` -> `vec_push_within_capacity(RECV, x)`, a trusted
+    wrapper around the same std call whose spec adds "the capacity is unchanged" (std: no reallocation when len < capacity;
+    vstd's push spec is silent about the capacity)."""
+    def rule(u, key, text):
+        pat = re.compile(r'(assert!\(\(?%s\.len\(\)\)? < \(?%s\.capacity\(\)\)?\);\s*)%s\.push\((\w+)\);' % (re.escape(recv), re.escape(recv), re.escape(recv)))
+        m = pat.search(text)
+        if not m:
+            return text
+        u.rules['R23'] += 1
+        return text[:m.start()] + m.group(1) + 'vec_push_within_capacity(&mut %s, %s);' % (recv, m.group(2)) + text[m.end():]
+    return rule
